@@ -7,6 +7,8 @@ From MP Require Import Model.PyString.
 From MP Require Import Model.Normalize.
 From MP Require Import Proofs.C20_PyString.
 From MP Require Import Proofs.C20_Text.
+From MP Require Import Spec.XmlShape.
+From MP Require Import Proofs.C20_Xml.
 
 (** The whitespace predicate is exactly this explicit set (checked against str.isspace
     on all 1,114,112 code points by the harness). *)
@@ -52,4 +54,55 @@ Print Assumptions C20_nonspace.
 Example C20_example :
   norm ([160; 32] ++ s "a" ++ [9; 32; 32; 160] ++ s "b" ++ [10] ++ s "c" ++ [32; 8195])%N
   = (s "a" ++ [32] ++ s "b" ++ [10] ++ s "c")%N.
+Proof. vm_compute. reflexivity. Qed.
+
+(** * XML branch: the infoset semantics of the stylesheet ([norm_xml], Model/Normalize.v)
+
+    [protected] is the ancestor list of the stylesheet's text() template (the harness reads it
+    from normalize.py on every run: markup, literalLayout, objectName, attributeName, para);
+    the theorems hold for any list.  The XML parser, libxslt and the libxml2 serialiser are
+    NOT modelled: string-level idempotence and well-formedness of the returned text are
+    checked differentially only (harness/c20.py). *)
+
+(** Normalising twice changes nothing more. *)
+Theorem C20x_idem : forall protected root,
+  flat_map (norm_xml protected) (norm_xml protected root) = norm_xml protected root.
+Proof. exact xml_idem. Qed.
+Print Assumptions C20x_idem.
+
+(** Same elements, attribute names and order. *)
+Theorem C20x_struct : forall protected root, flat_map skeleton (norm_xml protected root) = skeleton root.
+Proof. exact xml_struct. Qed.
+Print Assumptions C20x_struct.
+
+(** Text nodes below a protected element are kept, in order, apart from U+00A0 -> U+0020 ... *)
+Theorem C20x_protected : forall protected root,
+  flat_map (texts protected true false) (norm_xml protected root) =
+  map (replace_char 160 32) (texts protected true false root).
+Proof. exact xml_protected. Qed.
+Print Assumptions C20x_protected.
+
+(** ... indeed below a protected element the stylesheet changes attribute values only
+    ([nbsp_x]: U+00A0 -> U+0020 in text and attribute values). *)
+Theorem C20x_protected_subtree : forall protected n,
+  xslt_tr protected true n = [attrs_only xnorm (nbsp_x n)].
+Proof. exact xslt_protected_subtree. Qed.
+Print Assumptions C20x_protected_subtree.
+
+(** Every other text node is non-empty and space-normalised; so is every attribute value
+    (which may be empty). *)
+Theorem C20x_norm : forall protected root,
+  Forall (fun v => v <> [] /\ xnormal v) (flat_map (texts protected false false) (norm_xml protected root)) /\
+  Forall xnormal (flat_map attr_values (norm_xml protected root)).
+Proof. exact xml_norm. Qed.
+Print Assumptions C20x_norm.
+
+Example C20x_example :
+  norm_xml [s "para"]
+    (XE (s "a") [(s "x", [32; 49; 9; 160; 50; 32]%N)]
+        [ XT [10; 32]%N; XE (s "b") [] [XT (s "  hello   world ")]; XT [10]%N;
+          XE (s "para") [] [XT ([32; 160]%N ++ s "keep  "); XE (s "i") [] [XT (s " this ")]] ])
+  = [ XE (s "a") [(s "x", s "1 2")]
+        [ XE (s "b") [] [XT (s "hello world")];
+          XE (s "para") [] [XT (s "  keep  "); XE (s "i") [] [XT (s " this ")]] ] ].
 Proof. vm_compute. reflexivity. Qed.
